@@ -46,11 +46,11 @@ def sstep (s : SSt) : SEv → Except Err (SSt × Outs)
   | .wait a =>
     if s.pend a = false ∨ s.blocked a = true then .error .illFormed
     else
-      .ok ((match (s.m.waitFor a .unit).2 with
-            | some _ => { s with m := (s.m.waitFor a .unit).1, held := upd s.held a (s.held a + 1),
+      .ok ((match (s.m.waitFor a .unit (s.m.isGranted a)).2 with
+            | some _ => { s with m := (s.m.waitFor a .unit (s.m.isGranted a)).1, held := upd s.held a (s.held a + 1),
                                  pend := upd s.pend a false }
-            | none => { s with m := (s.m.waitFor a .unit).1, blocked := upd s.blocked a true }),
-           optOut a (s.m.waitFor a .unit).2)
+            | none => { s with m := (s.m.waitFor a .unit (s.m.isGranted a)).1, blocked := upd s.blocked a true }),
+           optOut a (s.m.waitFor a .unit (s.m.isGranted a)).2)
   | .tryLock a =>
     if s.pend a then .error .illFormed
     else
